@@ -157,23 +157,29 @@ def run(rep, pdb, tier):
             in_loop = any(a is body_loop for a in ancestors(o))
             fs = facts(ctx, o)
             carries = ctx.term(o["args"][0]) == cur
-            if kind == "scalar":
-                # |dx| <= tol
-                test = [f for f in fs if f[0] == "cmp" and f[1] == "<=" and f[3] == TOL and f[2][0] == "call" and str(f[2][1]).endswith("::abs") and f[2][2] in dx_names]
-            else:
-                # max_residual <= tol with max_residual = f.norm_inf(), f = func(current.clone())
-                test = []
-                for f in fs:
-                    if f[0] == "cmp" and f[1] == "<=" and f[3] == TOL:
-                        mr = f[2]
-                        if mr[0] == "var" and ctx.def_term(mr) is not None:
-                            mr = ctx.def_term(mr)
-                        if mr[0] == "call" and str(mr[1]).endswith("::norm_inf"):
-                            fv = mr[2]
-                            if fv[0] == "var" and ctx.def_term(fv) is not None:
-                                fv = ctx.def_term(fv)
-                            if fv[0] == "callv" and fv[1] == P(1) and fv[2] == cur:
-                                test.append(f)
+            def _deref(t):
+                return ctx.def_term(t) if t[0] == "var" and ctx.def_term(t) is not None else t
+            # the size of the step: |dx| (scalar) or dx.norm_inf() (system), possibly named before the update consumes dx
+            test_step, test_resid = [], []
+            for f in fs:
+                if not (f[0] == "cmp" and f[1] == "<=" and f[3] == TOL):
+                    continue
+                mr = _deref(f[2])
+                if mr[0] != "call":
+                    continue
+                arg = mr[2] if len(mr) > 2 else None
+                if arg is None:
+                    continue
+                if kind == "scalar" and str(mr[1]).endswith("::abs") and (arg in dx_names or _deref(arg) == dx):
+                    test_step.append(f)
+                elif kind != "scalar" and str(mr[1]).endswith("::norm_inf"):
+                    if arg in dx_names or _deref(arg) == dx:
+                        test_step.append(f)
+                    else:
+                        fv = _deref(arg)
+                        if fv[0] == "callv" and fv[1] == P(1) and fv[2] == cur:
+                            test_resid.append(f)
+            test = test_step + test_resid
             ok1 = in_loop and carries and len(test) >= 1
             det = "Ok inside loop=%s carries iterate=%s stopping test dominates=%s" % (in_loop, carries, bool(test))
             # ---- failure carries the iterate
@@ -213,6 +219,10 @@ def run(rep, pdb, tier):
                     okj2 = jinit == ("callv", P(2), cur)
                 rep.add("step/%s" % short, "dx solves J*dx = f(current) by solve_basic with the Jacobian evaluated at current (finite-difference with self.delta, or the supplied one); the update subtracts dx",
                         oks_ and okj2, upd.node, "dx=%s J=%s" % (show(dx, ctx)[:120], show(jinit, ctx)[:120] if jinit else None))
+            rep.add("criterion/%s" % short, "success is decided on the size of the Newton step applied in this iteration (|dx| <= tol, ||dx||_inf <= tol): inside the basin of quadratic convergence the "
+                    "distance of the returned iterate to the root is then O(step^2), whereas a residual test |f| <= tol bounds it only by tol/|f'| (f = exp(x) - exp(-10), tol 1e-4: 1000 tol) "
+                    "and cannot be met at all once ulp(f terms) > tol", in_loop and bool(test_step), oks[0],
+                    "step test=%s residual test=%s" % (bool(test_step), bool(test_resid)))
         rep.add("ok-tested/%s" % short, "the only Ok(..) is inside the loop, control-dependent on the stopping test, and carries the iterate", ok1, oks[0] if oks else fn["body"], det)
     # ---- the dense solve used for the step (src/matrix/solve.rs is an anchor of this property): pivoting by magnitude
     from .c01 import rule_magnitude, check_argmax
@@ -226,7 +236,7 @@ def run(rep, pdb, tier):
     check_gauss(rep, pdb, "step-solver/elimination")
     from .c01 import check_early_returns
     check_early_returns(rep, pdb, "step-solver/early-return", names=("partial_pivot", "gauss_with_pivot", "backsolve", "solve_basic"))
-    # the residual test max_residual = f.norm_inf(): no component of the residual is ignored
+    # the stopping test of the system variants takes norm_inf(): no component is ignored (NaN propagates)
     from .c15 import check_norm_inf
     check_norm_inf(rep, pdb, "vector::Vector<f64>::norm_inf", "residual-norm/f64")
     check_norm_inf(rep, pdb, "vector::Vector<complex::Complex<f64>>::norm_inf", "residual-norm/Cmplx")
@@ -236,10 +246,12 @@ def run(rep, pdb, tier):
     rep.floor("bounded/loop/", 6)
     rep.floor("bounded/callees/", 6)
     rep.floor("ok-tested/", 6)
+    rep.floor("criterion/", 6)
     rep.floor("failure-carries-iterate/", 6)
     rep.floor("step/", 6)
     rep.floor("eval-count/", 6)
     rep.floor("no-hidden-state/", 6)
     rep.assumptions += ["the user closure is deterministic (then repeated calls return identical results)",
-                        "`Ok => within O(tol) of the root` for functions in the basin of quadratic convergence is a theorem about Newton's method, not decided statically"]
+                        "`Ok => within O(tol) of the root` for functions in the basin of quadratic convergence is a theorem about Newton's method with a step-size stopping test; "
+                        "the rules decide that every variant uses that test on the step it applies, not the theorem"]
     return {"evaluations_per_iteration": evals}
